@@ -17,9 +17,9 @@ ALSO = {"C04a": ["C11"], "C05b": ["C11"], "C06b": ["C11"], "C07a": ["C11"], "C05
         "C09d": ["C10"]}
 FIX_PROPS = {"D1": ["C04", "C06"], "D2": ["C12"], "D3": ["C08"], "D4": ["C02"], "D5": ["C02"], "D6": ["C05"],
              "D7": ["C11", "C07"], "D9": ["C16"], "D10": ["C01"], "D11": ["C02", "C08"],
-             "D12": ["C11"], "D13": ["C11"], "D14": ["C19"], "D15": ["C18"], "D16": ["C05"], "D17": ["C10"],
+             "D12": ["C11"], "D13": ["C11"], "D14": ["C19"], "D15": ["C18"], "D17": ["C10"],
              "D18": ["C05"], "D19": ["C08"], "D20": ["C09"], "D21": ["C16"], "D22": ["C03", "C05"],
-             "D23": ["C10", "C09"], "D24": ["C11"], "D25": ["C15"], "D26": ["C07"], "D27": ["C05"], "D28": ["C05"],
+             "D23": ["C10", "C09"], "D24": ["C11"], "D25": ["C15"], "D26": ["C07"], "D28": ["C05"],
              "D29": ["C05"], "D30": ["C04"], "D31": ["C05"], "D32": ["C04"], "D33": ["C02"]}
 
 
